@@ -120,13 +120,20 @@ def native_probe(chk):
     if chk.tier == 'quick':
         combos = [combos[0], combos[-1], combos[5], combos[10], combos[3], combos[12]]
     fails, n = [], 0
-    for kname, (ename, Lfix, Lvar, sign) in GEOM.items():
-        for combo in combos:
-            dts = dict(zip(['tof', 'L1', 'L2', ename], combo))
-            r = replay({'obligation': f'C05/{MOD}:{kname}/native', 'meta': {'kernel': kname, 'dtypes': dts}})
-            n += r.get('tried', 72)
-            if r.get('reproduced'):
-                fails.append({'id': f'{kname}-{"-".join(combo)}', 'kernel': kname, 'dtypes': dts, **{k: v for k, v in r.items() if k != 'reproduced'}})
+    from vf.realrun import real_module
+    # two passes, each on a freshly executed module: double precision first, then single precision first -- a result must not
+    # depend on which dtype the kernels were called with before (constants remembered from an earlier call)
+    for order in ('double precision first', 'single precision first'):
+        real_module('conversion.tof', fresh=True)
+        seq = combos if order.startswith('double') else sorted(combos, key=lambda c: (-c.count('float32'), c))
+        for combo in seq:
+            for kname, (ename, Lfix, Lvar, sign) in GEOM.items():
+                dts = dict(zip(['tof', 'L1', 'L2', ename], combo))
+                r = replay({'obligation': f'C05/{MOD}:{kname}/native', 'meta': {'kernel': kname, 'dtypes': dts}})
+                n += r.get('tried', 72)
+                if r.get('reproduced') and not any(f['kernel'] == kname and f['dtypes'] == dts for f in fails):
+                    fails.append({'id': f'{kname}-{"-".join(combo)}-{order.split()[0]}', 'kernel': kname, 'dtypes': dts, 'order': order,
+                                  **{k: v for k, v in r.items() if k != 'reproduced'}})
     chk.bounded_check('native-kernel-probe', 'real inelastic kernels vs mpmath reference (40 digits) incl. the NaN boundary', f'{n} (geometry x unit) cases over '
                       f'{len(combos)} dtype assignments x 2 kernels', n, fails[:3])
 
@@ -136,6 +143,12 @@ def replay(rec):
     import mpmath as mp
     if '/bounded/native-kernel-probe/' in rec['obligation']:
         f = rec.get('meta', {}).get('replay') or {}
+        if str(f.get('order', '')).startswith('single'):
+            # the failure appeared after single-precision calls on a fresh module: re-create that history
+            from vf.realrun import real_module
+            real_module('conversion.tof', fresh=True)
+            for kname in GEOM:
+                replay({'obligation': 'x', 'meta': {'kernel': kname, 'dtypes': {k: 'float32' for k in ('tof', 'L1', 'L2', GEOM[kname][0])}}})
         return replay({'obligation': 'x', 'meta': {'kernel': f.get('kernel'), 'dtypes': f.get('dtypes', {})}})
     import scipp as sc
     import scipp.constants
